@@ -154,25 +154,28 @@ def acceptable_as_request(msg):
 
 
 def mask(resp, nq=None):
-    """Blank RDLENGTH+RDATA of the answers (endpoint-address field) for C19; structural walk."""
+    """Blank RDLENGTH+RDATA of the answers (endpoint-address field) for C19; structural walk.
+    Returns None if the message cannot be walked as header + questions + answers made of label-structured names."""
     if resp is None or len(resp) < 12:
-        return resp
+        return None
     rid, rflags, qd, an, ns, ar = struct.unpack("!HHHHHH", resp[:12])
     if not rflags & 0x8000:
-        return resp
+        return None
     i = 12
     for _ in range(qd):
         j = parse_name(resp, i)
         if j is None or len(resp) < j + 4:
-            return resp
+            return None
         i = j + 4
     out = bytearray(resp[:i])
     for _ in range(an):
         j = parse_name(resp, i)
         if j is None or len(resp) < j + 10:
-            return resp
+            return None
         rdl = struct.unpack("!H", resp[j + 8:j + 10])[0]
         out += resp[i:j + 8] + b"<rdata>"
         i = j + 10 + rdl
+        if i > len(resp):
+            return None
     out += resp[i:]
     return bytes(out)
